@@ -159,6 +159,7 @@ class Interp:
         self.layer_self = None
         self.class_attrs = {}         # (class qname, attr) -> value stored at run time
         self.defaulted = set()
+        self.value_only_default = "present"
         self.pure_depth = 0           # >0 while executing code of non-layer classes (entities, attributes, converter)
         self.layer_base = None
 
@@ -193,7 +194,7 @@ class Interp:
             # undecidable test inside entity / attribute code (no routing effects there): a fixed default,
             # recorded; truthiness defaults to True (optional fields present), comparisons to False
             self.defaulted.add(text)
-            return text.startswith(("truth(", "nonempty("))
+            return text.startswith(("truth(", "nonempty(", "in("))
         n = self.fcount.get(text, 0)
         self.fcount[text] = n + 1
         key = text if n == 0 else "%s #%d" % (text, n + 1)
@@ -242,7 +243,7 @@ class Interp:
             if self.pure_depth > 0 and a[0] in ("A", "E") and a not in self.cell and not self.domains.get(a):
                 # value-only attribute (never compared with a constant) read inside entity code:
                 # the documented shape has it; its absence is not explored for routing
-                return ("other", a)
+                return ("other", a) if self.value_only_default != "absent" else C_NONE
             x = self.ask(v[1])
             if x == OTHER:
                 return ("other", v[1])
@@ -462,6 +463,8 @@ class Interp:
 
     def for_loop(self, s, env, depth):
         it = self.force(self.expr(s.iter, env, depth))
+        if it[0] == "items" and it[2] and it[1]:
+            it = ("list", self.item_pairs(it[1]), True)
         items = self.iterate(it)
         if items is None and it[0] == "list" and it[1]:
             # open list: its known elements stand for all of them; effects count as repeated
@@ -514,6 +517,20 @@ class Interp:
         if it[0] == "items" and not it[2]:
             return [("list", [("c", k), v]) for k, v in it[1].items()]
         return None
+
+    @staticmethod
+    def item_pairs(d):
+        """(key value, value) pairs of an abstract dict, dynamic entries included"""
+        out = []
+        for k, v in d.items():
+            if isinstance(k, tuple) and k and k[0] == "dyn":
+                if v[0] == "list" and len(v[1]) == 2:
+                    out.append(("list", [v[1][0], v[1][1]]))
+                else:
+                    out.append(("list", [("fn", "key", [v]), v]))
+            else:
+                out.append(("list", [("c", k), v]))
+        return out
 
     def element_of(self, it):
         if it[0] == "many":
@@ -1078,7 +1095,7 @@ class Interp:
                     nm = self._mangle(kx, name)
                     if nm in o.fields:
                         return o.fields[nm]
-                if o.cls.ext_bases or any(x.ext_bases for x in self.repo.mro(o.cls)):
+                if any(x for k_ in self.repo.mro(o.cls) for x in k_.ext_bases if x != "object"):
                     return ("fn", "inherited." + name, [b])
             return ("unset", name)
         if k == "node":
@@ -1330,7 +1347,7 @@ class Interp:
                 pass
         else:
             o.fields["@args"] = ("list", list(args) + list(kwargs.values()))
-        if any(x.ext_bases and x.ext_bases != ["object"] for x in self.repo.mro(c)):
+        if any(x for k_ in self.repo.mro(c) for x in k_.ext_bases if x != "object"):
             o.fields.setdefault("@ext", ("list", list(args) + list(kwargs.values())))
         return ov
 
@@ -1429,6 +1446,9 @@ class Interp:
                 items = self.iterate(args[0])
                 return ("fn", "join", [recv] + (items if items is not None else [args[0]]))
             return ("fn", name, [recv] + list(args))
+        if k == "ext":
+            # an unknown method called on an opaque external object: the object now carries what was put into it
+            recv[2].extend(list(args) + list(kwargs.values()))
         return ("fn", name, [recv] + list(args) + list(kwargs.values()))
 
 
